@@ -176,6 +176,16 @@ func (ex *Exec) callFunc(fr *Frame, callee *ssa.Function, binds []Val, args []Va
 		ex.pureLibCall(name, callee, args, st, k)
 		return
 	}
+	// bun's query builder: every other *SelectQuery method that returns a *SelectQuery returns its receiver
+	// (what it adds to the SQL text is not modelled here; see the taint contracts for C20)
+	if strings.HasPrefix(name, "(*github.com/uptrace/bun.SelectQuery).") && callee.Signature.Results().Len() == 1 &&
+		types.TypeString(callee.Signature.Results().At(0).Type(), nil) == "*github.com/uptrace/bun.SelectQuery" && len(args) > 0 {
+		if c := vc.prog.contracts.Funcs[name]; c == nil {
+			vc.usedExt["bun builder methods return their receiver: "+name] = true
+			k(st, tv(ex.toTerm(st, args[0], nil)), false)
+			return
+		}
+	}
 	c := vc.prog.contracts.Funcs[name]
 	if c != nil && !c.Inline && !(fr.top && callee == fr.fn && false) {
 		ex.applyContract(fr, c, callee, callee.Signature, args, site, st, k, name)
@@ -433,7 +443,7 @@ func (ex *Exec) havocReachable(st *State, a Val, t types.Type) {
 				c := vc.sorts.anyCtors[key]
 				if pt, ok := c.typ.Underlying().(*types.Pointer); ok {
 					es := vc.sorts.SortOf(pt.Elem())
-					if !strings.Contains(a.T.S, "("+c.name+" ") {
+					if !strings.HasPrefix(a.T.S, "("+c.name+" ") {
 						continue
 					}
 					inner := Term{app(c.sel, a.T.S), SRef}
